@@ -33,39 +33,44 @@ func init() {
 		Assumptions: commonAssumptions,
 		Rules: []Rule{{"nilderef", ruleNilDeref}, {"nil-element", ruleNilProducer}, {"support-currentPage", ruleSupportCurrentPage}, {"bounds", ruleBounds}, {"divzero", ruleDivZero}, {"typeassert", ruleTypeAssert}, {"explicit-panic", rulePanicCalls}, {"support-framerate", ruleSupportFramerate}, {"loops", ruleLoops}},
 	})
-	register(&PropSpec{ID: "C09",
-		Explanation: "Structural clauses of Sync (Subtitles.Add): frame condition (writes only StartAt, EndAt and the item slice).",
+	register(&PropSpec{ID: "C07",
+		Explanation: "Structural clauses of any-to-any conversion: (a) the extension tables of Open and Subtitles.Write are extracted from the SSA switch and must agree (same codec family per extension, .ts read-only), be case-insensitive and default to ErrInvalidExtension; (b) every writer returns before its first Write/Encode when the list is empty; (c) the CLI sub-command table equals the documented one (operation, flag variables in order, then Write(-o)); (d) no writer dereferences Metadata, styles' or regions' inline style or any optional pointer without a nil test (E1 restricted to the writers' closure). Not decided: cue preservation across the 35 format pairs and operation sequences.",
 		Assumptions: commonAssumptions,
-		Rules:       []Rule{{"frame", ruleFrame("Subtitles.Add")}},
+		Rules: []Rule{{"ext-dispatch", ruleExtDispatch}, {"cli-dispatch", ruleCLIDispatch()}, {"empty-list-guard", ruleEmptyListGuard}, {"writers-nil-tolerant", ruleWritersNilTolerant}},
+	})
+	register(&PropSpec{ID: "C09",
+		Explanation: "Structural clauses of Sync (Subtitles.Add): frame condition (writes only StartAt, EndAt and the item slice); both boundaries of a cue receive the same update expression; the in-place deletion rewinds the loop index on every path; the CLI sync sub-command calls Add with the -s flag and then writes. Not decided: that the shift equals d, the clamp, exactly which cues are removed.",
+		Assumptions: commonAssumptions,
+		Rules: []Rule{{"frame", ruleFrame("Subtitles.Add")}, {"twin-update", ruleTwinUpdate("Subtitles.Add")}, {"delete-rewind", ruleDeleteRewind("Subtitles.Add")}, {"cli", ruleCLIDispatch("sync")}},
 	})
 	register(&PropSpec{ID: "C10",
-		Explanation: "Structural clauses of Fragment: frame condition.",
+		Explanation: "Structural clauses of Fragment: frame condition; every new piece is a whole-value copy of its source item; every path from an insertion to a return passes Order(); CLI fragment → Fragment(-f). Not decided: where the cuts fall (the known last-listed-cue bound fault is a run-time bound and stays invisible).",
 		Assumptions: commonAssumptions,
-		Rules:       []Rule{{"frame", ruleFrame("Subtitles.Fragment")}},
+		Rules: []Rule{{"frame", ruleFrame("Subtitles.Fragment")}, {"whole-copy", ruleWholeCopy}, {"order-after-insert", ruleOrderAfter}, {"cli", ruleCLIDispatch("fragment")}},
 	})
 	register(&PropSpec{ID: "C11",
-		Explanation: "Structural clauses of Unfragment: frame condition.",
+		Explanation: "Structural clauses of Unfragment: frame condition (only EndAt and the slice); delete-rewind on the inner index; Order() dominates the scan; the merge test compares Item.String() of both cues and that function reads every run's text; CLI unfragment. Not decided: which pairs merge, the fixpoint, the inverse law against Fragment.",
 		Assumptions: commonAssumptions,
-		Rules:       []Rule{{"frame", ruleFrame("Subtitles.Unfragment")}},
+		Rules: []Rule{{"frame", ruleFrame("Subtitles.Unfragment")}, {"delete-rewind", ruleDeleteRewind("Subtitles.Unfragment")}, {"order-before-scan", ruleOrderBefore}, {"text-identity", ruleTextIdentity}, {"cli", ruleCLIDispatch("unfragment")}},
 	})
 	register(&PropSpec{ID: "C12",
-		Explanation: "Structural clauses of Order and Merge: frame conditions.",
+		Explanation: "Order: only permutes (frame), through sort.SliceStable with a strict < on StartAt of (i, j). Merge: s.Items = append(s.Items, i.Items...) then Order() (receiver first, stable ⇒ A's cues ahead of B's on equal starts); definitions stored only on the not-found edge of a lookup under the same key (receiver wins); no effect rooted at the argument; no store into a nil map (receivers built without the constructor); CLI merge. With a correct library sort these are the statement. Not decided: correctness of sort.SliceStable.",
 		Assumptions: commonAssumptions,
-		Rules:       []Rule{{"frame-order", ruleFrame("Subtitles.Order")}, {"frame-merge", ruleFrame("Subtitles.Merge")}},
+		Rules: []Rule{{"frame-order", ruleFrame("Subtitles.Order")}, {"frame-merge", ruleFrame("Subtitles.Merge")}, {"stable-order", ruleStableOrder}, {"merge-shape", ruleMergeShape}, {"merge-nil-maps", ruleNilDerefIn("Subtitles.Merge", "Subtitles.Order")}, {"cli", ruleCLIDispatch("merge")}},
 	})
 	register(&PropSpec{ID: "C13",
-		Explanation: "Structural clauses of Optimize and RemoveStyling: frame conditions.",
+		Explanation: "Optimize: only deletes map entries (frame), only when the list has a cue, under the key being ranged; the marking code reads every reference edge of the model (every *Style / *Region field of Item, Line, LineItem, Region, Style, computed from the type declarations, incl. Style.Style). RemoveStyling: writes all and only the styling fields (computed from the types), with nil / empty-map values. CLI optimize. Not decided: closure depth beyond reading each edge, idempotence, write/read-back.",
 		Assumptions: commonAssumptions,
-		Rules:       []Rule{{"frame-optimize", ruleFrame("Subtitles.Optimize")}, {"frame-removestyling", ruleFrame("Subtitles.RemoveStyling")}},
+		Rules: []Rule{{"frame-optimize", ruleFrame("Subtitles.Optimize")}, {"frame-removestyling", ruleFrame("Subtitles.RemoveStyling")}, {"reference-edges", ruleOptimizeEdges}, {"styling-complete", ruleRemoveStylingComplete}, {"optimize-guard", ruleOptimizeGuard}, {"cli", ruleCLIDispatch("optimize")}},
 	})
 	register(&PropSpec{ID: "C14",
-		Explanation: "Structural clauses of ForceDuration: frame condition.",
+		Explanation: "Structural clauses of ForceDuration: frame (only EndAt and the slice); the filler is appended only on the true edge of the addDummyItem parameter; every store is dominated by the false edge of Duration() == d whose true edge returns at once; Duration has no effect. Not decided: which cues are trimmed, the resulting duration, the filler interval.",
 		Assumptions: commonAssumptions,
-		Rules:       []Rule{{"frame", ruleFrame("Subtitles.ForceDuration")}, {"frame-duration", ruleFrame("Subtitles.Duration")}},
+		Rules: []Rule{{"frame", ruleFrame("Subtitles.ForceDuration")}, {"frame-duration", ruleFrame("Subtitles.Duration")}, {"guards", ruleForceDurationGuards}},
 	})
 	register(&PropSpec{ID: "C15",
-		Explanation: "Structural clauses of ApplyLinearCorrection: frame condition.",
+		Explanation: "Structural clauses of ApplyLinearCorrection: frame (only StartAt/EndAt, never the slice or its order); both boundaries are mapped by the identical expression (tree isomorphism up to the field swap); CLI passes a1, d1, a2, d2 in that order. Not decided: that the expression is the affine map within 1 µs (floating-point values).",
 		Assumptions: commonAssumptions,
-		Rules:       []Rule{{"frame", ruleFrame("Subtitles.ApplyLinearCorrection")}},
+		Rules: []Rule{{"frame", ruleFrame("Subtitles.ApplyLinearCorrection")}, {"twin-update", ruleTwinUpdate("Subtitles.ApplyLinearCorrection")}, {"cli", ruleCLIDispatch("apply-linear-correction")}},
 	})
 }
